@@ -66,3 +66,16 @@ Lemma C04_inst_tester_catch_all :
                     | Some ALogReraiseIfDebug | Some ALog => true | _ => false end) (ff_tries tester_fact) = true.
 Proof. vm_compute. reflexivity. Qed.
 Print Assumptions C04_inst_tester_catch_all.
+
+(* run_tests walks self.files_list (possibly wrapped by the progress bar) while removals go to the working copy
+   new_files_list: skipping a file can never make the loop jump over its neighbour *)
+Lemma C04_inst_loop_source :
+  (fix eqb (a b : list pstr) : bool :=
+     match a, b with [], [] => true | x :: a', y :: b' => pstr_eqb x y && eqb a' b' | _, _ => false end)
+    RUN_TESTS_LOOP
+    [s2p "files = progress.track(self.files_list)"; s2p "files = self.files_list";
+     s2p "for (count, fname) in enumerate(files)";
+     s2p "new_files_list = ['<stdin>' if x == '-' else x for x in new_files_list]";
+     s2p "new_files_list = list(self.files_list)"; s2p "self.files_list = new_files_list"] = true.
+Proof. vm_compute. reflexivity. Qed.
+Print Assumptions C04_inst_loop_source.
